@@ -143,6 +143,11 @@ func (chain *groupChain) AddGroup(group *types.Group) error {
 
 	chain.lock.Lock()
 	defer chain.lock.Unlock()
+	// looked up again under the lock: a fork switch may have put this id on the chain
+	// since the check above
+	if exist, _ := chain.groups.Has(group.Id); exist {
+		return common.ErrGroupAlreadyExist
+	}
 	exist, _ := chain.groups.Has(group.Header.Parent)
 	if !exist {
 		return fmt.Errorf("parent is not existed on group chain!Parent id:%v", group.Header.Parent)
